@@ -42,6 +42,7 @@ def gen_case(rng, cfg, idx):
         return c
     for _ in range(30):
         b = B.Builder(rng, dtype=rng.choice(["float64", "float64", "float32"]))
+        b.special_scalars = True
         shape = B.rand_shape(rng, 3, 3, 1)
         for i in range(rng.randint(1, 2)):
             b.leaf(shape if i == 0 else B.bcast_variants(rng, shape), constant=rng.choice([None, None, None, True]), lo=0.4, hi=1.8,
@@ -187,13 +188,33 @@ def run_variant(prog, res):
     return r, grads, sorted(REG.opclasses)
 
 
-def ulp_close(a, b, ulps):
-    a, b = np.asarray(a, dtype=float), np.asarray(b, dtype=float)
+def ulp_close(a, b, ulps, coarse=None):
+    """Units in the last place of the arrays' OWN float type (the coarser of the two, or `coarse` when the computation was asked to run in a
+    coarser type through dtype=)."""
+    a, b = np.asarray(a), np.asarray(b)
+    fdts = [np.dtype(d) for d in (a.dtype, b.dtype, coarse) if d is not None and np.dtype(d).kind == "f"]
+    dt = max(fdts, key=lambda d: np.finfo(d).eps) if fdts else np.dtype(float)
+    a, b = a.astype(float), b.astype(float)
     if a.shape != b.shape:
         return False
     with np.errstate(all="ignore"):
-        tol = ulps * np.spacing(np.maximum(np.abs(a), np.abs(b)))
+        tol = ulps * np.spacing(np.maximum(np.abs(a), np.abs(b)).astype(dt)).astype(float)
         return bool(np.all((np.abs(a - b) <= tol) | ((a != a) & (b != b)) | (a == b)))
+
+
+def reduced_close(ga, gb, r0, ulps):
+    """A gradient that was sum-reduced (a broadcast operand): an out= array of another memory layout changes the order of that sum, so the
+    error is a few ulps of the *summands* (which may cancel), not of the result.  The summands are bounded through the result's size ratio
+    and the largest gradient magnitude seen in either spelling; only the out=/augmented spellings get this allowance."""
+    ga, gb = np.asarray(ga), np.asarray(gb)
+    if ga.shape != gb.shape or ga.size == 0 or ga.size >= max(1, r0.size):
+        return False
+    fd = [np.dtype(d) for d in (ga.dtype, gb.dtype, r0.dtype) if np.dtype(d).kind == "f"]
+    eps = max(np.finfo(d).eps for d in fd) if fd else np.finfo(float).eps
+    with np.errstate(all="ignore"):
+        a, b = ga.astype(float), gb.astype(float)
+        scale = max(1.0, float(np.nanmax(np.abs(a))), float(np.nanmax(np.abs(b)))) * (r0.size / ga.size)
+        return bool(np.all((np.abs(a - b) <= ulps * eps * scale) | ((a != a) & (b != b)) | (a == b)))
 
 
 def run_case(case):
@@ -308,7 +329,8 @@ def run_case(case):
                 if inplace and ga is None:
                     continue
                 viol.append({"monitor": "O-meta", "mech": f"grad-presence:{fn}:{sp}", "msg": f"{fn}: {n}.grad presence differs between mg and {sp}"})
-            elif ga is not None and not (np.array_equal(ga, gb, equal_nan=True) or ulp_close(ga, gb, max(ulps_sp, 0) * 4)):
+            elif ga is not None and not (np.array_equal(ga, gb, equal_nan=True) or ulp_close(ga, gb, max(ulps_sp, 0) * 4, coarse=r0.dtype)
+                                         or (ulps_sp > 0 and reduced_close(ga, gb, r0, ulps_sp * 4))):
                 viol.append({"monitor": "O-meta", "mech": f"grad:{fn}:{sp}", "msg": f"{fn}: {n}.grad {ga.ravel()[:4]} via mg but {gb.ravel()[:4]} via {sp}"})
         sets.setdefault("class_by_spelling", []).append(f"{fn}:{sp}:{'+'.join(cls)}"[:120])
     sets["fns"] = [fn]
